@@ -75,6 +75,10 @@ func BuildConfig(rp *plan.RouterPlan, pki *peers.PKI, dir string) (*router.Confi
 		if u.UseCA {
 			uc.Tls.CA = caF
 		}
+		if u.OtherCA {
+			uc.Tls.CA = filepath.Join(dir, "otherca.pem")
+			os.WriteFile(uc.Tls.CA, pki.OtherCAPEM, 0o600)
+		}
 		uc.Tls.InsecureSkipVerify = u.Skip
 		cfg.Upstreams = append(cfg.Upstreams, uc)
 	}
